@@ -1,4 +1,48 @@
-(* C05 — property theorems (filled in as the proofs close). *)
+(* C05 — property theorems only: each closed by [exact lemma], followed by Print Assumptions. *)
 From Coq Require Import List ZArith Bool.
-From Verif Require Import MiniGo.Syntax MiniGo.Sem MiniGo.Fast.
+From Verif Require Import MiniGo.Syntax MiniGo.Sem MiniGo.Fast C05.Proof C05.Sim C05.Switch C05.Correct C05.Final.
 Import ListNotations.
+
+(* Forward simulation (all programs, all fuel).  _partial: the only excluded construct is the goto STATEMENT
+   ([nogoto]); labelled statements, labelled/unlabelled break and continue through nested blocks with locals,
+   loops and switches, the three for forms, switch with constant/expression tags, default in any position,
+   fallthrough, the switch2.go jump table and return are all covered.  Backward goto is tied by the
+   correspondence run (outputs + IP trace) and the compiled-Go differential only. *)
+Theorem C05_compile_correct_partial : forall nres body fuel o st' tr' code,
+  nogoto body = true ->
+  exec_func fuel nres body = Some (o, st', tr') -> finished o ->
+  compile_func nres body = Some code ->
+  exists fuel' m, run fuel' code (init_state nres) = Some m /\ m_tr m = tr' /\ exists k, skipn k (m_env m) = st'.
+Proof. exact compile_correct_partial. Qed.
+Print Assumptions C05_compile_correct_partial.
+
+(* the constant-case jump table of switch2.go selects the clause the linear scan of switch.go selects *)
+Theorem C05_switch_gotomap_equiv : forall v st cs hb t,
+  zassoc v (gotomap hb cs true) = Some t ->
+  exists hb', case_ip v st hb cs = Some hb' /\ t = hb' + 1.
+Proof. exact switch_gotomap_equiv. Qed.
+Print Assumptions C05_switch_gotomap_equiv.
+
+(* the number of Code slots of a construct is independent of context and position (what makes late patching of
+   the captured *int targets equivalent to the compositional computation) *)
+Theorem C05_code_size : forall s cx base lbls c, compile cx base lbls s = Some c -> length c = size s.
+Proof. exact compile_size. Qed.
+Print Assumptions C05_code_size.
+
+(* non-vacuity: a labelled loop with a switch, fallthrough, default in the middle, labelled continue from inside
+   the switch, a block with a local; hypotheses hold and both sides compute the same trace *)
+Definition ex_prog : stmt :=
+  SSeq (SLabeled 7 (SFor 1 [SiAssign 0 0 (EConst 0)] (Some (ELt (EVar 0 0) (EConst 3))) [SiAssign 0 0 (EAdd (EVar 0 0) (EConst 1))] 0
+     (SSwitch (Some (EVar 0 0))
+        (CCons (CCase [EConst 0]) 0 (SEmit (EConst 10)) true
+        (CCons CDefault 1 (SSeq (SAssign 0 0 (EConst 5)) (SSeq (SEmit (EVar 0 0)) (SContinue (Some 7)))) false
+        (CCons (CCase [EConst 2; EConst 9]) 0 (SSeq (SEmit (EConst 12)) (SBreak (Some 7))) false CNil))))))
+  (SSeq (SAssign 0 1 (EConst 42)) SReturn).
+
+Example ex_hyp : nogoto ex_prog = true /\
+  exists o st tr code, exec_func 50 2 ex_prog = Some (o, st, tr) /\ finished o /\ compile_func 2 ex_prog = Some code /\
+                       rev tr = [10; 5; 5; 12]%Z /\ st = [[0; 42]%Z].
+Proof.
+  split; [reflexivity|]. eexists _, _, _, _. split; [vm_compute; reflexivity|].
+  split; [right; reflexivity|]. split; [vm_compute; reflexivity|]. split; reflexivity.
+Qed.
